@@ -25,6 +25,7 @@ import os
 import sys
 
 sys.path.insert(0, os.path.dirname(os.path.dirname(os.path.abspath(__file__))))
+import common  # noqa: E402
 
 MODULE = "lca"
 ADAPTER = "lca_impl.py"
@@ -57,6 +58,17 @@ SCALED_POOL = [1, 2, 3, 10, 10, 100, 1000, 10000, 12345, 2 ** 20]
 
 def tok(s):
     return "-" if s == "" else s.replace(" ", "~")
+
+
+def sig_md5(ksize, mol, scaled, num, hs):
+    """md5sum of the sketch MinHash(num, ksize, scaled=, <moltype>).add_many(hs): the digest of the internal k-mer
+    size (3k for protein/dayhoff/hp) followed by the retained hashes"""
+    if num:
+        kept = sorted(set(hs))[:num]
+    else:
+        M = max_hash(scaled)
+        kept = sorted(h for h in set(hs) if h <= M)
+    return common.md5_of_pre(ksize * 3 if mol else ksize, kept)
 
 
 def show_lineage(l):
@@ -112,9 +124,11 @@ def gen_free_lineage(rng):
     "for the find_lca sub-stream: arbitrary (rank, name) sequences, including non-positional ones and empty names"
     n = rng.randint(0, 6)
     mode = rng.random()
+    if mode > 0.85:
+        n = rng.randint(5, 20)            # LIN / ICTV style: many positions, few different values per position
     out = []
     for i in range(n):
-        rank = i if mode < 0.6 else rng.randint(0, 9)
+        rank = i if (mode < 0.6 or mode > 0.85) else rng.randint(0, 9)
         name = 0 if rng.random() < 0.15 else rng.randint(1, 3)
         out.append((rank, name))
     return tuple(out)
@@ -129,6 +143,8 @@ def gen_case(rng, flavour):
     'big' (sketches of 52..130 hashes: more than one batch in _signatures)"""
     if flavour == "fn":
         return gen_fn_case(rng)
+    if flavour == "index":
+        return gen_index_case(rng)
     lines = []
     S_db = rng.choice(SCALED_POOL)
     S2 = rng.choice([s for s in SCALED_POOL if s >= S_db] + [S_db * 2, S_db * 10])
@@ -136,6 +152,10 @@ def gen_case(rng, flavour):
         S2 = S_db * 10
     M, M2, P2 = max_hash(S_db), max_hash(S2), py_max_hash(S2)
     ksize = 21
+    mol = 0 if rng.random() < 0.85 else rng.randint(1, 3)        # protein / dayhoff / hp databases
+    if mol:
+        ksize = rng.choice([7, 10])
+    molopt = f" mol={mol}" if mol else ""
     # hash pool: small values (heavy sharing) + the thresholds of both scaled values and their neighbours
     small = rng.sample(range(1, 40), rng.randint(3, 9))
     if flavour == "big":
@@ -172,9 +192,16 @@ def gen_case(rng, flavour):
         if rng.random() < 0.03:
             num, s_sc = 5, 0                                     # a num sketch: refused
         k = ksize if rng.random() > 0.03 else 31                 # wrong ksize: refused
-        lines.append(f"sig {i} {name} - {s_sc} {num} {k} {join_or(',', [str(h) for h in hs])}")
-        sigs.append(name)
-    lines.append(f"db 0 {ksize} {S_db}")
+        m_i = mol if rng.random() > 0.03 else (mol + 1) % 4      # wrong moltype: refused
+        fname = "-"
+        if rng.random() < 0.08:                                  # unnamed: identified by filename or md5 prefix
+            name = "-"
+            fname = rng.choice(["-", f"f{i}.sig"])
+        opt = (f" mol={m_i}" if m_i else "") + f" md5={sig_md5(k, m_i, s_sc, num, hs)}"
+        lines.append(f"sig {i} {name} {fname} {s_sc} {num} {k} {join_or(',', [str(h) for h in hs])}{opt}")
+        sigs.append(name if name != "-" else "")
+    lines.append(f"db 0 {ksize} {S_db}{molopt}")
+    lines.append("info 0")
     order = list(range(nsig))
     rng.shuffle(order)
     if rng.random() < 0.3:
@@ -223,6 +250,7 @@ def gen_case(rng, flavour):
     dbs = [0]
     if flavour in ("forms", "down") or rng.random() < 0.3:
         lines.append("json 0 1")
+        lines.append("info 1")
         lines += queries(1, full=(flavour == "forms"))
         dbs.append(1)
         if rng.random() < 0.5:
@@ -242,6 +270,7 @@ def gen_case(rng, flavour):
                 lines += queries(4, full=False)
     if use_sql:
         lines.append("sql 0 2")
+        lines.append("info 2")
         lines += queries(2, full=(flavour == "forms"))
         dbs.append(2)
     if flavour in ("summ", "db", "forms"):
@@ -253,13 +282,134 @@ def gen_case(rng, flavour):
         if rng.random() < 0.3:
             lines.append(f"down 0 {S_db}")                        # cannot go back: refused
         # the same signatures inserted directly into a database at S2 must give the same answers
-        lines.append(f"db 3 {ksize} {S2}")
+        lines.append(f"db 3 {ksize} {S2}{molopt}")
         for l in [x for x in lines if x.startswith("ins 0 ")]:
             w = l.split()
             lines.append(f"ins 3 {w[2]} {w[3]} {w[4]}")
         lines += queries(3, full=True)
         if flavour == "down":
             lines += gen_summ(rng, pool, dbs, 2)
+    return lines
+
+
+TAXHEADER = ["identifiers", "superkingdom", "phylum", "class", "order", "family", "genus", "species", "strain"]
+NULLS = ["", "", "na", "null", "[Blank]", "~", "~na~"]
+
+
+def gen_index_case(rng):
+    """`sourmash lca index` end to end: signatures (one file each), a taxonomy spreadsheet with the quirks
+    the reader handles (header names, -C/--start-column, blank and short rows, null names, duplicate
+    identifiers), the identifier options, --require-taxonomy / --fail-on-missing-taxonomy, -f, --report;
+    then the resulting database is queried"""
+    lines = []
+    S = rng.choice([1, 10, 100, 1000])
+    M = max_hash(S)
+    mol = 0 if rng.random() < 0.85 else 1
+    ksize = 21 if not mol else 7
+    pool = sorted(set(rng.sample(range(1, 40), rng.randint(3, 8)) + [M, M + 1 if M < U64 else M]))
+    nsig = rng.randint(1, 6)
+    names, sig_hs = [], []
+    for i in range(nsig):
+        name = rng.choice(NAME_FORMS).format(i=i, v=rng.randint(1, 3))
+        fname = "-"
+        r = rng.random()
+        if r < 0.1:
+            name, fname = "-", f"file{i}.sig"
+        elif r < 0.13:
+            name = "-"                                            # neither name nor filename: md5 prefix
+        hs = rng.sample(pool, rng.randint(0, len(pool)))
+        if i and rng.random() < 0.15:
+            hs = list(sig_hs[rng.randrange(i)])                   # same content: duplicate md5, skipped
+        k = ksize if rng.random() > 0.08 else 31                  # other ksize: not selected
+        s_sc, num = (rng.choice([s for s in (1, 10, 100, 1000) if s <= S]), 0)
+        r = rng.random()
+        if r < 0.04:
+            s_sc = S * 10                                         # cannot be downsampled: the command fails
+        elif r < 0.07:
+            s_sc, num = 0, 5                                      # a num sketch: the command fails
+        m_i = mol if rng.random() > 0.05 else 1 - mol
+        opt = (f" mol={m_i}" if m_i else "") + f" md5={sig_md5(k, m_i, s_sc, num, hs)}"
+        lines.append(f"sig {i} {name} {fname} {s_sc} {num} {k} {join_or(',', [str(h) for h in hs])}{opt}")
+        names.append(name.replace("~", " ") if name != "-" else (fname if fname != "-" else ""))
+        sig_hs.append(hs)
+    # options
+    opts = [f"k{ksize}", f"s{S}", f"m{mol}"]
+    C = rng.choice([2, 2, 2, 3, 4, 1])
+    if C != 2:
+        opts.append(f"C{C}")
+    si = rng.random() < 0.5
+    kv = si and rng.random() < 0.5
+    nh = rng.random() < 0.2
+    for flag, on in (("si", si), ("kv", kv), ("nh", nh), ("f", rng.random() < 0.15), ("rt", rng.random() < 0.25),
+                     ("fm", rng.random() < 0.15)):
+        if on:
+            opts.append(flag)
+    # the spreadsheet
+    taxa = gen_taxonomy(rng)
+    junk = ["j"] * max(C - 2, 0)
+
+    def ident_of(name):
+        i = name
+        if si:
+            i = i.split(" ")[0]
+            if not kv:
+                i = i.split(".")[0]
+        if rng.random() < 0.1:
+            i = name                                              # written the other way: may not be found
+        return i
+
+    def lineage_cells():
+        path = rng.choice(taxa)
+        cells = [f"t{n}" for n in path[:rng.randint(1, len(path))]]
+        if len(cells) > 2 and rng.random() < 0.3:
+            cells[rng.randint(1, len(cells) - 2)] = rng.choice(NULLS)       # a missing rank in the middle
+        if rng.random() < 0.3:
+            cells += [rng.choice(NULLS) for _ in range(rng.randint(1, 3))]  # nulls at the end
+        return cells[:8]
+
+    rows = []
+    if not nh:
+        hdr = list(TAXHEADER)
+        r = rng.random()
+        nbad = 0 if r < 0.6 else (rng.randint(1, 2) if r < 0.85 else rng.randint(3, 5))
+        for j in rng.sample(range(len(hdr)), nbad):
+            hdr[j] = rng.choice(["accession", "Kingdom", "x", hdr[j].upper() + "s"])
+        if rng.random() < 0.3:
+            hdr = [h.capitalize() for h in hdr]                   # case does not matter
+        rows.append([hdr[0]] + junk + hdr[1:])
+    for name in names:
+        if name and rng.random() < 0.8:
+            rows.append([ident_of(name)] + junk + lineage_cells())
+    for _ in range(rng.randint(0, 3)):
+        r = rng.random()
+        if r < 0.3:
+            rows.append([f"nosig{rng.randint(0, 9)}"] + junk + lineage_cells())     # no such signature
+        elif r < 0.45:
+            rows.append(None)                                      # an empty line
+        elif r < 0.6:
+            rows.append([rng.choice(["", " "])] + junk + lineage_cells())          # blank identifier
+        elif r < 0.8 and len(rows) > 1 and rows[-1]:
+            dup = list(rows[-1])
+            if rng.random() < 0.5:
+                dup = dup[:1] + junk + lineage_cells()             # same identifier, maybe another lineage
+            rows.append(dup)
+        else:
+            rows.append([f"only{rng.randint(0, 9)}"] + junk)       # identifier without any name
+    if len(rows) > 2:
+        body = rows[(0 if nh else 1):]
+        rng.shuffle(body)
+        rows = rows[:(0 if nh else 1)] + body
+    csvtok = "/".join("!" if r is None else ";".join(c.replace(" ", "~") for c in r) for r in rows) or "-"
+    order = list(range(nsig))
+    rng.shuffle(order)
+    lines.append(f"index 0 {','.join(opts)} {','.join(map(str, order))} {csvtok}")
+    qs = ["info 0", "len 0", "hv 0", "sigs 0"]
+    for h in pool[:6]:
+        qs += [f"la 0 {h}", f"ids 0 {h}"]
+    lines += qs
+    if rng.random() < 0.3:
+        lines.append("sql 0 2")
+        lines += ["len 2", "sigs 2"] + [f"la 2 {h}" for h in pool[:3]]
     return lines
 
 
@@ -339,12 +489,14 @@ class ODb:
         self.down = False          # downsample_scaled has been applied
         self.taint = None          # signature of a defect already reported for this database
         self.half = 0              # failed insertions into a JSON-loaded database that still took an index
+        self.mol = 0
 
     def copy(self, form):
         n = ODb(self.scaled, self.ksize)
         n.entries = [dict(e) for e in self.entries]
         n.form, n.down, n.taint = form, self.down, self.taint
         n.half = self.half if form != "sql" else 0
+        n.mol = self.mol
         if form == "sql":
             # before 74325d9 the SQLite form only received the sketches that were non-empty (D11)
             n.rows = sum(1 for e in self.entries if self.kept(e))
@@ -391,20 +543,32 @@ def oracle(case, impl):
         try:
             if o == "sig":
                 if ok:
-                    S[int(a[0])] = dict(name="" if a[1] == "-" else a[1].replace("~", " "), scaled=int(a[3]),
-                                        num=int(a[4]), ksize=int(a[5]),
+                    opts = dict(t.split("=", 1) for t in a[7:])
+                    S[int(a[0])] = dict(name="" if a[1] == "-" else a[1].replace("~", " "),
+                                        filename="" if a[2] == "-" else a[2].replace("~", " "), scaled=int(a[3]),
+                                        num=int(a[4]), ksize=int(a[5]), mol=int(opts.get("mol", 0)),
+                                        md5=opts.get("md5", ""),
                                         hashes=[] if val == "-" else [int(x) for x in val.split(",")])
                 else:
                     S.pop(int(a[0]), None)
             elif o == "db":
                 D[int(a[0])] = ODb(int(a[2]), int(a[1]))
+                D[int(a[0])].mol = int(dict(t.split("=", 1) for t in a[3:]).get("mol", 0))
+            elif o == "info":
+                d = int(a[0])
+                if d in D:
+                    exp = f"ok ksize={D[d].ksize} scaled={D[d].scaled} mol={D[d].mol}"
+                    if obs != exp:
+                        flag("C18:db-parameters", f"expected {exp[3:]} (ksize and moltype must survive every storage form)", d)
             elif o == "ins":
                 d, r = int(a[0]), int(a[1])
                 if d not in D or r not in S:
                     continue
                 db, sg = D[d], S[r]
-                ident = sg["name"] if a[2] == "-" else a[2].replace("~", " ")
-                valid = (sg["ksize"] == db.ksize and not sg["num"] and 0 < sg["scaled"] <= db.scaled
+                # default identifier: the name, else the filename, else the first 8 characters of the md5sum
+                dflt = sg["name"] or sg["filename"] or sg["md5"][:8]
+                ident = dflt if a[2] == "-" else a[2].replace("~", " ")
+                valid = (sg["ksize"] == db.ksize and sg["mol"] == db.mol and not sg["num"] and 0 < sg["scaled"] <= db.scaled
                          and all(x["ident"] != ident for x in db.entries))
                 if not ok and valid:
                     if db.form == "json" and obs in ("err KeyError", "err AttributeError"):
@@ -422,8 +586,10 @@ def oracle(case, impl):
                         flag("C18:insert-count", f"insert reports {val} hashes, the sketch has {len(db.kept(e))} at scaled {db.scaled}", d)
                     if any(x["ident"] == ident for x in db.entries[:-1]):
                         flag("C18:duplicate-ident-accepted", f"identifier {ident!r} inserted twice", d)
-                    if sg["ksize"] != db.ksize or sg["num"] or sg["scaled"] > db.scaled:
+                    if sg["ksize"] != db.ksize or sg["mol"] != db.mol or sg["num"] or sg["scaled"] > db.scaled:
                         flag("C18:incompatible-accepted", "a sketch that cannot be brought to the database's ksize/scaled was accepted", d)
+            elif o == "index":
+                D.pop(int(a[0]), None)        # the CLI glue is checked by correspondence with the model only
             elif o == "json" or o == "sql":
                 d, e = int(a[0]), int(a[1])
                 if d in D and ok:
@@ -531,7 +697,8 @@ def _check_query(db, d, o, a, ok, val, obs, flag):
             elif db.form == "sql" and db.down and h > M and exp == []:
                 flag("C18:sql-downsample-keeps-hashes-above-threshold", f"hash {h} > max_hash({db.scaled}) still has identifiers", d)
             elif db.form == "sql" and ok and len(got) == len(hold) and \
-                    all(g in {tok(i) for e in hold for i in _name_idents(e) + (e["ident"],)} for g in got):
+                    all(g in ({tok(i) for e in hold for i in _name_idents(e) + (e["ident"],)}
+                              | ({"set()"} if any(e["name"] == "" for e in hold) else set())) for g in got):
                 flag("C18:sql-ident-differs", f"expected {exp}: the SQLite form re-derives identifiers from signature names "
                      "(first word, or the prefix before the first '.' when no lineage is stored under the first word)", d)
             else:
@@ -666,4 +833,5 @@ def nontrivial(case, impl):
     ins = sum(1 for c, o in zip(case, impl) if c.startswith("ins ") and o.startswith("ok"))
     la = sum(1 for c, o in zip(case, impl) if c.startswith("la ") and o.startswith("ok ") and o != "ok -")
     fn = sum(1 for c, o in zip(case, impl) if c.startswith("lca ") and o.startswith("ok "))
-    return (ins >= 2 and la >= 3) or fn >= 3
+    ix = any(c.startswith("index ") and o.startswith("ok") for c, o in zip(case, impl))
+    return (ins >= 2 and la >= 3) or fn >= 3 or (ix and la >= 1)
